@@ -58,32 +58,219 @@ pub mod thread {
         pub fn spawn_scoped<'scope, 'env, F, T>(self, scope: &'scope Scope<'scope, 'env>, f: F) -> ::std::io::Result<ScopedJoinHandle<'scope, T>> where F: FnOnce() -> T + Send + 'scope, T: Send + 'scope { Ok(scope.spawn_named(self.name, f)) }
     }
 }
+/// Run-time support for synchronisation objects that must be constructible in `const` context (statics) and yet be
+/// explored by loom: the object itself is plain storage; the loom primitive that gives it its blocking / ordering
+/// semantics is created lazily, per execution, in a registry keyed by the object's address. Objects that live in the
+/// program's data segment (statics) are put back to the bytes they had when they were first seen before every
+/// execution, so every execution starts from the initial state (whatever they own at that time is leaked).
+pub mod rt {
+    use ::std::any::Any;
+    use ::std::cell::{Cell, RefCell};
+    use ::std::collections::HashMap;
+    use ::std::rc::Rc;
+    struct Entry { size: usize, snapshot: ::std::boxed::Box<[u8]>, prim: Option<Rc<dyn Any>> }
+    ::std::thread_local! { static REG: RefCell<HashMap<usize, Entry>> = RefCell::new(HashMap::new()); static ACTIVE: Cell<bool> = Cell::new(false); }
+    extern "C" { static __data_start: u8; static _end: u8; }
+    fn is_static(addr: usize) -> bool { unsafe { addr >= &__data_start as *const u8 as usize && addr < &_end as *const u8 as usize } }
+    /// to be called at the start of every loom execution
+    pub fn new_execution() {
+        REG.with(|r| { let mut r = r.borrow_mut();
+            r.retain(|addr, _| is_static(*addr)); // anything else belonged to the previous execution (its memory may be gone)
+            for (addr, e) in r.iter_mut() { unsafe { ::std::ptr::copy_nonoverlapping(e.snapshot.as_ptr(), *addr as *mut u8, e.size) }; e.prim = None; } });
+        ACTIVE.with(|a| a.set(true));
+    }
+    /// to be called when an execution is over (loom objects must not be touched outside one)
+    pub fn end_execution() { ACTIVE.with(|a| a.set(false)); REG.with(|r| for e in r.borrow_mut().values_mut() { e.prim = None; }); }
+    pub fn active() -> bool { ACTIVE.with(|a| a.get()) }
+    /// the loom primitive of the object at `addr` (created on first use in this execution); None outside an execution
+    pub fn prim<P: 'static>(addr: usize, size: usize, make: impl FnOnce() -> P) -> Option<Rc<P>> {
+        if !active() { return None; }
+        let existing = REG.with(|r| r.borrow().get(&addr).and_then(|e| e.prim.clone()));
+        if let Some(p) = existing { if let Ok(p) = p.downcast::<P>() { return Some(p); } }
+        let p: Rc<P> = Rc::new(make()); // created outside the registry borrow: `make` may reach a scheduling point
+        REG.with(|r| { let mut r = r.borrow_mut();
+            let e = r.entry(addr).or_insert_with(|| Entry { size, snapshot: unsafe { ::std::slice::from_raw_parts(addr as *const u8, size) }.to_vec().into_boxed_slice(), prim: None });
+            e.prim = Some(p.clone() as Rc<dyn Any>); });
+        Some(p)
+    }
+    pub fn unregister(addr: usize) { let _ = REG.try_with(|r| { if let Ok(mut r) = r.try_borrow_mut() { r.remove(&addr); } }); }
+}
 pub mod sync {
-    pub use ::std::sync::{LockResult, Once, PoisonError, TryLockError, TryLockResult, Weak};
+    pub use ::std::sync::{LockResult, PoisonError, TryLockError, TryLockResult, Weak};
     pub use self::once_lock::OnceLock;
-    pub use loom::sync::{Arc, Condvar, Mutex, MutexGuard, RwLock, RwLockReadGuard, RwLockWriteGuard};
-    pub mod atomic { pub use loom::sync::atomic::*; }
-    /// std's OnceLock with a loom scheduling point on every access. The storage is std's (so `new` stays `const`, which
-    /// clap's generated statics need); the scheduling point is an operation on a loom atomic that the harness creates
-    /// afresh for every execution (`new_execution`). Outside an execution it is plain std behaviour.
-    pub mod once_lock {
-        use ::std::cell::RefCell;
-        use ::std::sync::Arc as RealArc;
-        ::std::thread_local! { static POINT: RefCell<Option<RealArc<loom::sync::atomic::AtomicUsize>>> = RefCell::new(None); }
-        pub fn new_execution() { POINT.with(|p| *p.borrow_mut() = Some(RealArc::new(loom::sync::atomic::AtomicUsize::new(0)))); }
-        fn point() { let a = POINT.with(|p| p.borrow().clone()); if let Some(a) = a { a.fetch_add(1, loom::sync::atomic::Ordering::SeqCst); } }
-        pub struct OnceLock<T>(::std::sync::OnceLock<T>);
-        impl<T> OnceLock<T> {
-            pub const fn new() -> OnceLock<T> { OnceLock(::std::sync::OnceLock::new()) }
-            pub fn get(&self) -> Option<&T> { point(); self.0.get() }
-            pub fn get_mut(&mut self) -> Option<&mut T> { self.0.get_mut() }
-            pub fn set(&self, value: T) -> Result<(), T> { point(); self.0.set(value) }
-            pub fn get_or_init<F: FnOnce() -> T>(&self, f: F) -> &T { point(); self.0.get_or_init(f) }
-            pub fn into_inner(self) -> Option<T> { self.0.into_inner() }
-            pub fn take(&mut self) -> Option<T> { self.0.take() }
+    pub use self::locks::{Condvar, LazyLock, Mutex, MutexGuard, Once, RwLock, RwLockReadGuard, RwLockWriteGuard};
+    pub use loom::sync::Arc;
+    pub use loom::sync::WaitTimeoutResult;
+    pub mod atomic {
+        //! atomics with `const fn new` whose operations are loom's (see `rt`)
+        pub use loom::sync::atomic::{fence, AtomicPtr, Ordering};
+        pub use ::std::sync::atomic::compiler_fence;
+        use ::std::cell::UnsafeCell;
+        macro_rules! atomic_common { ($name:ident, $t:ty, $loom:ty) => {
+            pub struct $name { v: UnsafeCell<$t> }
+            unsafe impl Sync for $name {} unsafe impl Send for $name {}
+            impl ::std::panic::RefUnwindSafe for $name {}
+            impl $name {
+                pub const fn new(v: $t) -> Self { $name { v: UnsafeCell::new(v) } }
+                fn p(&self) -> Option<::std::rc::Rc<$loom>> { let init = unsafe { *self.v.get() }; crate::rt::prim(self as *const _ as usize, ::std::mem::size_of::<Self>(), || <$loom>::new(init)) }
+                pub fn load(&self, o: Ordering) -> $t { match self.p() { Some(p) => p.load(o), None => unsafe { *self.v.get() } } }
+                pub fn store(&self, val: $t, o: Ordering) { match self.p() { Some(p) => p.store(val, o), None => unsafe { *self.v.get() = val } } }
+                pub fn swap(&self, val: $t, o: Ordering) -> $t { match self.p() { Some(p) => p.swap(val, o), None => unsafe { ::std::mem::replace(&mut *self.v.get(), val) } } }
+                pub fn compare_exchange(&self, cur: $t, new: $t, s: Ordering, f: Ordering) -> Result<$t, $t> { match self.p() { Some(p) => p.compare_exchange(cur, new, s, f), None => unsafe { let x = &mut *self.v.get(); if *x == cur { *x = new; Ok(cur) } else { Err(*x) } } } }
+                pub fn compare_exchange_weak(&self, cur: $t, new: $t, s: Ordering, f: Ordering) -> Result<$t, $t> { match self.p() { Some(p) => p.compare_exchange_weak(cur, new, s, f), None => self.compare_exchange(cur, new, s, f) } }
+                pub fn fetch_update<F: FnMut($t) -> Option<$t>>(&self, s: Ordering, f: Ordering, mut g: F) -> Result<$t, $t> { match self.p() { Some(p) => p.fetch_update(s, f, g), None => unsafe { let x = &mut *self.v.get(); match g(*x) { Some(n) => { let old = *x; *x = n; Ok(old) } None => Err(*x) } } } }
+                fn sync_back(&mut self) { if let Some(p) = self.p() { let v = unsafe { p.unsync_load() }; *self.v.get_mut() = v; crate::rt::unregister(self as *const _ as usize); } }
+                pub fn get_mut(&mut self) -> &mut $t { self.sync_back(); self.v.get_mut() }
+                pub fn into_inner(mut self) -> $t { self.sync_back(); *self.v.get_mut() }
+            }
+            impl Drop for $name { fn drop(&mut self) { crate::rt::unregister(self as *const _ as usize); } }
+            impl Default for $name { fn default() -> Self { Self::new(Default::default()) } }
+            impl From<$t> for $name { fn from(v: $t) -> Self { Self::new(v) } }
+            impl ::std::fmt::Debug for $name { fn fmt(&self, f: &mut ::std::fmt::Formatter<'_>) -> ::std::fmt::Result { f.write_str(stringify!($name)) } }
+        } }
+        macro_rules! atomic_int { ($name:ident, $t:ty) => {
+            atomic_common!($name, $t, loom::sync::atomic::$name);
+            impl $name {
+                pub fn fetch_add(&self, val: $t, o: Ordering) -> $t { match self.p() { Some(p) => p.fetch_add(val, o), None => unsafe { let x = &mut *self.v.get(); let old = *x; *x = old.wrapping_add(val); old } } }
+                pub fn fetch_sub(&self, val: $t, o: Ordering) -> $t { match self.p() { Some(p) => p.fetch_sub(val, o), None => unsafe { let x = &mut *self.v.get(); let old = *x; *x = old.wrapping_sub(val); old } } }
+                pub fn fetch_and(&self, val: $t, o: Ordering) -> $t { match self.p() { Some(p) => p.fetch_and(val, o), None => unsafe { let x = &mut *self.v.get(); let old = *x; *x = old & val; old } } }
+                pub fn fetch_nand(&self, val: $t, o: Ordering) -> $t { match self.p() { Some(p) => p.fetch_nand(val, o), None => unsafe { let x = &mut *self.v.get(); let old = *x; *x = !(old & val); old } } }
+                pub fn fetch_or(&self, val: $t, o: Ordering) -> $t { match self.p() { Some(p) => p.fetch_or(val, o), None => unsafe { let x = &mut *self.v.get(); let old = *x; *x = old | val; old } } }
+                pub fn fetch_xor(&self, val: $t, o: Ordering) -> $t { match self.p() { Some(p) => p.fetch_xor(val, o), None => unsafe { let x = &mut *self.v.get(); let old = *x; *x = old ^ val; old } } }
+                pub fn fetch_max(&self, val: $t, o: Ordering) -> $t { match self.p() { Some(p) => p.fetch_max(val, o), None => unsafe { let x = &mut *self.v.get(); let old = *x; *x = old.max(val); old } } }
+                pub fn fetch_min(&self, val: $t, o: Ordering) -> $t { match self.p() { Some(p) => p.fetch_min(val, o), None => unsafe { let x = &mut *self.v.get(); let old = *x; *x = old.min(val); old } } }
+            }
+        } }
+        atomic_int!(AtomicU8, u8); atomic_int!(AtomicU16, u16); atomic_int!(AtomicU32, u32); atomic_int!(AtomicU64, u64); atomic_int!(AtomicUsize, usize);
+        atomic_int!(AtomicI8, i8); atomic_int!(AtomicI16, i16); atomic_int!(AtomicI32, i32); atomic_int!(AtomicI64, i64); atomic_int!(AtomicIsize, isize);
+        atomic_common!(AtomicBool, bool, loom::sync::atomic::AtomicBool);
+        impl AtomicBool {
+            pub fn fetch_and(&self, val: bool, o: Ordering) -> bool { match self.p() { Some(p) => p.fetch_and(val, o), None => unsafe { let x = &mut *self.v.get(); let old = *x; *x = old & val; old } } }
+            pub fn fetch_nand(&self, val: bool, o: Ordering) -> bool { match self.p() { Some(p) => p.fetch_nand(val, o), None => unsafe { let x = &mut *self.v.get(); let old = *x; *x = !(old & val); old } } }
+            pub fn fetch_or(&self, val: bool, o: Ordering) -> bool { match self.p() { Some(p) => p.fetch_or(val, o), None => unsafe { let x = &mut *self.v.get(); let old = *x; *x = old | val; old } } }
+            pub fn fetch_xor(&self, val: bool, o: Ordering) -> bool { match self.p() { Some(p) => p.fetch_xor(val, o), None => unsafe { let x = &mut *self.v.get(); let old = *x; *x = old ^ val; old } } }
         }
+    }
+    pub mod locks {
+        //! Mutex / RwLock / Condvar / Once / LazyLock with `const fn new`: plain storage plus a lazily created loom primitive
+        use ::std::cell::{Cell, UnsafeCell};
+        use ::std::ops::{Deref, DerefMut};
+        use ::std::rc::Rc;
+        use ::std::sync::{LockResult, TryLockError, TryLockResult};
+        type LG = loom::sync::MutexGuard<'static, ()>;
+        pub struct Mutex<T> { data: UnsafeCell<T> }
+        unsafe impl<T: Send> Send for Mutex<T> {} unsafe impl<T: Send> Sync for Mutex<T> {}
+        impl<T> ::std::panic::UnwindSafe for Mutex<T> {} impl<T> ::std::panic::RefUnwindSafe for Mutex<T> {}
+        // field order = drop order: the loom guard goes before the primitive it borrows from
+        pub struct MutexGuard<'a, T> { lock: &'a Mutex<T>, g: Option<LG>, p: Option<Rc<loom::sync::Mutex<()>>> }
+        impl<T> Mutex<T> {
+            pub const fn new(t: T) -> Self { Mutex { data: UnsafeCell::new(t) } }
+            fn p(&self) -> Option<Rc<loom::sync::Mutex<()>>> { crate::rt::prim(self as *const _ as usize, ::std::mem::size_of::<Self>(), || loom::sync::Mutex::new(())) }
+            pub fn lock(&self) -> LockResult<MutexGuard<'_, T>> { let p = self.p(); let g = p.as_ref().map(|p| unsafe { ::std::mem::transmute::<loom::sync::MutexGuard<'_, ()>, LG>(p.lock().unwrap()) }); Ok(MutexGuard { lock: self, g, p }) }
+            pub fn try_lock(&self) -> TryLockResult<MutexGuard<'_, T>> { let p = self.p(); let g = match p.as_ref() { Some(p) => match p.try_lock() { Ok(g) => Some(unsafe { ::std::mem::transmute::<loom::sync::MutexGuard<'_, ()>, LG>(g) }), Err(_) => return Err(TryLockError::WouldBlock) }, None => None }; Ok(MutexGuard { lock: self, g, p }) }
+            pub fn is_poisoned(&self) -> bool { false }
+            pub fn clear_poison(&self) {}
+            pub fn get_mut(&mut self) -> LockResult<&mut T> { Ok(self.data.get_mut()) }
+            pub fn into_inner(self) -> LockResult<T> { crate::rt::unregister(&self as *const _ as usize); let me = ::std::mem::ManuallyDrop::new(self); Ok(unsafe { ::std::ptr::read(me.data.get()) }) }
+        }
+        impl<T> Drop for Mutex<T> { fn drop(&mut self) { crate::rt::unregister(self as *const _ as usize); } }
+        impl<T: Default> Default for Mutex<T> { fn default() -> Self { Mutex::new(T::default()) } }
+        impl<T> From<T> for Mutex<T> { fn from(t: T) -> Self { Mutex::new(t) } }
+        impl<T> ::std::fmt::Debug for Mutex<T> { fn fmt(&self, f: &mut ::std::fmt::Formatter<'_>) -> ::std::fmt::Result { f.write_str("Mutex { .. }") } }
+        impl<T> Deref for MutexGuard<'_, T> { type Target = T; fn deref(&self) -> &T { unsafe { &*self.lock.data.get() } } }
+        impl<T> DerefMut for MutexGuard<'_, T> { fn deref_mut(&mut self) -> &mut T { unsafe { &mut *self.lock.data.get() } } }
+        impl<T: ::std::fmt::Debug> ::std::fmt::Debug for MutexGuard<'_, T> { fn fmt(&self, f: &mut ::std::fmt::Formatter<'_>) -> ::std::fmt::Result { (**self).fmt(f) } }
+
+        pub struct Condvar { _pad: u8 }
+        impl Condvar {
+            pub const fn new() -> Self { Condvar { _pad: 0 } }
+            fn p(&self) -> Option<Rc<loom::sync::Condvar>> { crate::rt::prim(self as *const _ as usize, ::std::mem::size_of::<Self>(), loom::sync::Condvar::new) }
+            pub fn wait<'a, T>(&self, guard: MutexGuard<'a, T>) -> LockResult<MutexGuard<'a, T>> {
+                let MutexGuard { lock, g, p } = guard;
+                let g = match (self.p(), g) { (Some(cv), Some(g)) => Some(cv.wait(g).unwrap()), (_, g) => g };
+                Ok(MutexGuard { lock, g, p })
+            }
+            pub fn wait_while<'a, T, F: FnMut(&mut T) -> bool>(&self, mut guard: MutexGuard<'a, T>, mut cond: F) -> LockResult<MutexGuard<'a, T>> { while cond(&mut *guard) { guard = self.wait(guard)?; } Ok(guard) }
+            pub fn wait_timeout<'a, T>(&self, guard: MutexGuard<'a, T>, dur: ::std::time::Duration) -> LockResult<(MutexGuard<'a, T>, loom::sync::WaitTimeoutResult)> {
+                let MutexGuard { lock, g, p } = guard;
+                match (self.p(), g) { (Some(cv), Some(g)) => { let (g, r) = cv.wait_timeout(g, dur).unwrap(); Ok((MutexGuard { lock, g: Some(g), p }, r)) }
+                    _ => panic!("Condvar::wait_timeout outside a loom execution") }
+            }
+            pub fn notify_one(&self) { if let Some(cv) = self.p() { cv.notify_one() } }
+            pub fn notify_all(&self) { if let Some(cv) = self.p() { cv.notify_all() } }
+        }
+        impl Drop for Condvar { fn drop(&mut self) { crate::rt::unregister(self as *const _ as usize); } }
+        impl Default for Condvar { fn default() -> Self { Condvar::new() } }
+        impl ::std::fmt::Debug for Condvar { fn fmt(&self, f: &mut ::std::fmt::Formatter<'_>) -> ::std::fmt::Result { f.write_str("Condvar { .. }") } }
+
+        type RG = loom::sync::RwLockReadGuard<'static, ()>; type WG = loom::sync::RwLockWriteGuard<'static, ()>;
+        pub struct RwLock<T> { data: UnsafeCell<T> }
+        unsafe impl<T: Send> Send for RwLock<T> {} unsafe impl<T: Send + Sync> Sync for RwLock<T> {}
+        impl<T> ::std::panic::UnwindSafe for RwLock<T> {} impl<T> ::std::panic::RefUnwindSafe for RwLock<T> {}
+        pub struct RwLockReadGuard<'a, T> { lock: &'a RwLock<T>, _g: Option<RG>, _p: Option<Rc<loom::sync::RwLock<()>>> }
+        pub struct RwLockWriteGuard<'a, T> { lock: &'a RwLock<T>, _g: Option<WG>, _p: Option<Rc<loom::sync::RwLock<()>>> }
+        impl<T> RwLock<T> {
+            pub const fn new(t: T) -> Self { RwLock { data: UnsafeCell::new(t) } }
+            fn p(&self) -> Option<Rc<loom::sync::RwLock<()>>> { crate::rt::prim(self as *const _ as usize, ::std::mem::size_of::<Self>(), || loom::sync::RwLock::new(())) }
+            pub fn read(&self) -> LockResult<RwLockReadGuard<'_, T>> { let p = self.p(); let g = p.as_ref().map(|p| unsafe { ::std::mem::transmute::<loom::sync::RwLockReadGuard<'_, ()>, RG>(p.read().unwrap()) }); Ok(RwLockReadGuard { lock: self, _g: g, _p: p }) }
+            pub fn write(&self) -> LockResult<RwLockWriteGuard<'_, T>> { let p = self.p(); let g = p.as_ref().map(|p| unsafe { ::std::mem::transmute::<loom::sync::RwLockWriteGuard<'_, ()>, WG>(p.write().unwrap()) }); Ok(RwLockWriteGuard { lock: self, _g: g, _p: p }) }
+            pub fn try_read(&self) -> TryLockResult<RwLockReadGuard<'_, T>> { let p = self.p(); let g = match p.as_ref() { Some(p) => match p.try_read() { Ok(g) => Some(unsafe { ::std::mem::transmute::<loom::sync::RwLockReadGuard<'_, ()>, RG>(g) }), Err(_) => return Err(TryLockError::WouldBlock) }, None => None }; Ok(RwLockReadGuard { lock: self, _g: g, _p: p }) }
+            pub fn try_write(&self) -> TryLockResult<RwLockWriteGuard<'_, T>> { let p = self.p(); let g = match p.as_ref() { Some(p) => match p.try_write() { Ok(g) => Some(unsafe { ::std::mem::transmute::<loom::sync::RwLockWriteGuard<'_, ()>, WG>(g) }), Err(_) => return Err(TryLockError::WouldBlock) }, None => None }; Ok(RwLockWriteGuard { lock: self, _g: g, _p: p }) }
+            pub fn is_poisoned(&self) -> bool { false }
+            pub fn get_mut(&mut self) -> LockResult<&mut T> { Ok(self.data.get_mut()) }
+            pub fn into_inner(self) -> LockResult<T> { crate::rt::unregister(&self as *const _ as usize); let me = ::std::mem::ManuallyDrop::new(self); Ok(unsafe { ::std::ptr::read(me.data.get()) }) }
+        }
+        impl<T> Drop for RwLock<T> { fn drop(&mut self) { crate::rt::unregister(self as *const _ as usize); } }
+        impl<T: Default> Default for RwLock<T> { fn default() -> Self { RwLock::new(T::default()) } }
+        impl<T> From<T> for RwLock<T> { fn from(t: T) -> Self { RwLock::new(t) } }
+        impl<T> ::std::fmt::Debug for RwLock<T> { fn fmt(&self, f: &mut ::std::fmt::Formatter<'_>) -> ::std::fmt::Result { f.write_str("RwLock { .. }") } }
+        impl<T> Deref for RwLockReadGuard<'_, T> { type Target = T; fn deref(&self) -> &T { unsafe { &*self.lock.data.get() } } }
+        impl<T> Deref for RwLockWriteGuard<'_, T> { type Target = T; fn deref(&self) -> &T { unsafe { &*self.lock.data.get() } } }
+        impl<T> DerefMut for RwLockWriteGuard<'_, T> { fn deref_mut(&mut self) -> &mut T { unsafe { &mut *self.lock.data.get() } } }
+
+        /// std::sync::Once on top of OnceLock
+        pub struct Once { cell: super::once_lock::OnceLock<()> }
+        impl Once {
+            pub const fn new() -> Self { Once { cell: super::once_lock::OnceLock::new() } }
+            pub fn call_once<F: FnOnce()>(&self, f: F) { self.cell.get_or_init(f); }
+            pub fn is_completed(&self) -> bool { self.cell.get().is_some() }
+        }
+        /// std::sync::LazyLock on top of OnceLock
+        pub struct LazyLock<T, F = fn() -> T> { cell: super::once_lock::OnceLock<T>, init: Cell<Option<F>> }
+        unsafe impl<T: Sync + Send, F: Send> Sync for LazyLock<T, F> {}
+        impl<T, F: FnOnce() -> T> LazyLock<T, F> {
+            pub const fn new(f: F) -> Self { LazyLock { cell: super::once_lock::OnceLock::new(), init: Cell::new(Some(f)) } }
+            pub fn force(this: &Self) -> &T { this.cell.get_or_init(|| (this.init.take().expect("LazyLock initialiser already taken"))()) }
+        }
+        impl<T, F: FnOnce() -> T> Deref for LazyLock<T, F> { type Target = T; fn deref(&self) -> &T { LazyLock::force(self) } }
+    }
+    /// OnceLock with `const fn new`: plain storage; initialisation runs under a loom mutex (other callers block, as with
+    /// std), every `get` is a scheduling point. Outside an execution it is unsynchronised single-threaded behaviour.
+    pub mod once_lock {
+        use ::std::cell::UnsafeCell;
+        /// kept for harnesses written against the earlier interface
+        pub fn new_execution() { crate::rt::new_execution() }
+        pub struct OnceLock<T> { v: UnsafeCell<Option<T>> }
+        unsafe impl<T: Send + Sync> Sync for OnceLock<T> {} unsafe impl<T: Send> Send for OnceLock<T> {}
+        impl<T> ::std::panic::UnwindSafe for OnceLock<T> {} impl<T> ::std::panic::RefUnwindSafe for OnceLock<T> {}
+        impl<T> OnceLock<T> {
+            pub const fn new() -> OnceLock<T> { OnceLock { v: UnsafeCell::new(None) } }
+            fn p(&self) -> Option<::std::rc::Rc<loom::sync::Mutex<()>>> { crate::rt::prim(self as *const _ as usize, ::std::mem::size_of::<Self>(), || loom::sync::Mutex::new(())) }
+            pub fn get(&self) -> Option<&T> { let p = self.p(); let _g = p.as_ref().map(|p| p.lock().unwrap()); unsafe { (*self.v.get()).as_ref() } }
+            pub fn get_mut(&mut self) -> Option<&mut T> { self.v.get_mut().as_mut() }
+            pub fn set(&self, value: T) -> Result<(), T> { let p = self.p(); let _g = p.as_ref().map(|p| p.lock().unwrap()); let slot = unsafe { &mut *self.v.get() }; if slot.is_some() { Err(value) } else { *slot = Some(value); Ok(()) } }
+            pub fn get_or_init<F: FnOnce() -> T>(&self, f: F) -> &T {
+                let p = self.p(); let _g = p.as_ref().map(|p| p.lock().unwrap());
+                if unsafe { (*self.v.get()).is_none() } { let val = f(); unsafe { *self.v.get() = Some(val); } }
+                unsafe { (*self.v.get()).as_ref().unwrap() }
+            }
+            pub fn into_inner(self) -> Option<T> { crate::rt::unregister(&self as *const _ as usize); let me = ::std::mem::ManuallyDrop::new(self); unsafe { ::std::ptr::read(me.v.get()) } }
+            pub fn take(&mut self) -> Option<T> { self.v.get_mut().take() }
+        }
+        impl<T> Drop for OnceLock<T> { fn drop(&mut self) { crate::rt::unregister(self as *const _ as usize); } }
         impl<T> Default for OnceLock<T> { fn default() -> Self { Self::new() } }
-        impl<T: ::std::fmt::Debug> ::std::fmt::Debug for OnceLock<T> { fn fmt(&self, f: &mut ::std::fmt::Formatter<'_>) -> ::std::fmt::Result { self.0.fmt(f) } }
+        impl<T> From<T> for OnceLock<T> { fn from(t: T) -> Self { OnceLock { v: UnsafeCell::new(Some(t)) } } }
+        impl<T: ::std::fmt::Debug> ::std::fmt::Debug for OnceLock<T> { fn fmt(&self, f: &mut ::std::fmt::Formatter<'_>) -> ::std::fmt::Result { f.write_str("OnceLock { .. }") } }
     }
     /// An unbounded channel with std's disconnect semantics, written on loom's Mutex and Condvar.
     /// (loom's own mpsc stub has no disconnection and aborts when a message is left in the queue.)
